@@ -31,6 +31,7 @@ type LoopSpec struct {
 	Key  string
 	Invs []*Clause
 	Decr *Clause
+	Body []*Clause // `each`: checked at the end of every iteration (may use iter_calls/iter_arg)
 }
 
 type FuncSpec struct {
@@ -61,6 +62,7 @@ type FuncSpec struct {
 	Asserts    []*Clause
 	Holds      []string  // "holds mu" precondition: lock mu of receiver held (write mode)
 	WaitSet    []*CExpr
+	WrapSigned bool     // model signed +,-,* with two's-complement wrap-around instead of no-overflow obligations
 	Preserves  []*CExpr // with modifies *: components guaranteed unchanged (comp(T.f), elemsof(T))
 	presCache  []string
 }
@@ -125,7 +127,7 @@ var headWords = map[string]bool{
 	"modifies": true, "panics": true, "decreases": true, "pure": true, "log": true, "logs": true, "loop": true,
 	"invariant": true, "trusted": true, "source": true, "nobody": true, "lock": true, "shared": true,
 	"ghost": true, "chan": true, "params": true, "creates": true, "consumes": true, "havoc": true, "assert": true,
-	"holds": true, "waitset": true, "immutable": true, "ptriface": true, "preserves": true,
+	"holds": true, "waitset": true, "immutable": true, "ptriface": true, "preserves": true, "each": true, "wraparound": true,
 }
 
 type rawLine struct {
@@ -407,6 +409,10 @@ func (cs *Contracts) LoadContractFile(path, pkgPath string, pkgImports map[strin
 			} else if curF != nil {
 				// function-level variant: not used for now
 			}
+		case "wraparound":
+			if curF != nil {
+				curF.WrapSigned = true
+			}
 		case "pure":
 			if curF != nil {
 				curF.Pure = true
@@ -475,6 +481,15 @@ func (cs *Contracts) LoadContractFile(path, pkgPath string, pkgImports map[strin
 			}
 			curL = &LoopSpec{Key: k}
 			curF.Loops[k] = curL
+		case "each":
+			if curL == nil {
+				cs.errf(ctx, c.line, "each outside loop")
+				continue
+			}
+			tags, text := splitTags(rest)
+			if cl := mk("each", text, tags); cl != nil {
+				curL.Body = append(curL.Body, cl)
+			}
 		case "invariant":
 			if curL != nil {
 				tags, text := splitTags(rest)
